@@ -52,14 +52,14 @@ SIMTIME_NOTE = 'simulated poll-clock seconds advanced by the scheduler (FileWatc
 PROBES = ['write_after_read', 'nested_state_after_update', 'shape_change_after_read', 'file_reload_fired', 'linked_mask_after_update',
           'stat_after_update', 'copy_read', 'view_read', 'poll_tick_no_change', 'poll_after_file_vanished', 'link_swapped_same_endpoints', 'listener_read_inside_write',
           'listener_fresh_clone_compared', 'refresh_drops_component', 'refresh_from_kept_source', 'kept_source_updated',
-          'array_shared_between_datasets', 'refresh_adds_component', 'kept_source_reshaped', 'refresh_changes_ndim', 'free_state_read', 'member_state_read', 'old_state_reapplied', 'viewer_histogram_read', 'viewer_histogram_compared', 'viewer_display_flags_changed']
+          'array_shared_between_datasets', 'refresh_adds_component', 'kept_source_reshaped', 'refresh_changes_ndim', 'free_state_read', 'member_state_read', 'old_state_reapplied', 'viewer_histogram_read', 'viewer_histogram_compared', 'viewer_display_flags_changed', 'burst_of_views']
 PROBES_THOROUGH_ONLY = []
 
-READS = ('read_mask', 'read_val', 'read_stat', 'read_hist', 'read_copy', 'hv_read', 'hv_new', 'read_free', 'read_member', 'hv_flags')
+READS = ('read_mask', 'read_val', 'read_stat', 'read_hist', 'read_copy', 'hv_read', 'hv_new', 'read_free', 'read_member', 'hv_flags', 'read_burst')
 WEIGHTS = {'upd': 6, 'upd_from': 2, 'set_state': 3, 'edit_top': 3, 'add_comp': 1, 'add_link': 1.5, 'remove_link': 0.7, 'swap_link': 1.5,
            'new_group': 2, 'remove_group': 0.5, 'new': 1, 'append': 1.5, 'rewrite': 1.5, 'advance': 2, 'vanish': 0.2,
            'read_mask': 8, 'read_val': 3, 'read_stat': 3, 'read_hist': 2, 'read_copy': 1, 'check': 1.2,
-           'edit_memo': 2, 'edit_nested': 2, 'upd_src': 1.5, 'new_free': 1, 'read_free': 3, 'reapply': 1, 'read_member': 3}
+           'edit_memo': 2, 'edit_nested': 2, 'upd_src': 1.5, 'new_free': 1, 'read_free': 3, 'reapply': 1, 'read_member': 3, 'read_burst': 0.7}
 VIEWS = [None, None, [[0, 3, 1]], [[1, 4, 2]], 'int0', [[0, 2, 1], [0, 2, 1]]]
 
 
@@ -152,6 +152,10 @@ def generate(rng, cfg, guards):
             ops.append([k, r8(), r8(), rng.randrange(len(VIEWS)), rng.randrange(1, 3)])
         elif k == 'read_val':
             ops.append([k, r8(), r8(), rng.randrange(len(VIEWS))])
+        elif k == 'read_burst':
+            # a client that pans / zooms: one selection under very many different views (any bound on a cache is exceeded)
+            ops.append([k, r8(), r8(), rng.pick([70, 90, 140, 300])])
+            ops.append(['read_mask', ops[-1][1], ops[-1][2], 0, 1])
         elif k == 'read_stat':
             ops.append([k, r8(), r8(), rng.pick(['minimum', 'maximum', 'mean', 'sum', 'median']), rng.pick([None, 0, 1])])
         elif k == 'read_hist':
@@ -332,6 +336,15 @@ def apply_op(w, op, res, reading, skip=False):
                 w.mark_read(g.subset_state)
                 for _ in range(op[4]):
                     d.get_mask(g.subset_state, view=view)
+            elif k == 'read_burst':
+                g = w.pick_group(op[2])
+                if g is None:
+                    return 'none'
+                w.mark_read(g.subset_state)
+                res.probe('burst_of_views')
+                views = [(slice(a, b, c),) for c in (1, 2, 3) for a in range(10) for b in range(a, a + 12)][:op[3]]
+                for v in views:
+                    d.get_mask(g.subset_state, view=v)
             elif k == 'read_val':
                 cid = w.pick_cid(d, op[2])
                 d.get_data(cid, view=w.view_for(d, op[3]))
